@@ -41,6 +41,18 @@ def freeze(v):
 def same(a, b, label='result'):
     """structural equality of a computed value and its specification: list of (label, formula)"""
     out = []
+    if isinstance(b, (CatList, StackList)):
+        if isinstance(a, list):
+            if len(a) != 0:
+                return [(label + ':concrete-nonempty-list', False)]
+            return [(label + ':count', O.eq(b.count, 0))] + [('%s:view%d-empty' % (label, o), O.eq(v.shape[0], 0)) for o, v in enumerate(b.views)]
+        if type(a) is not type(b):
+            return [(label + ':list-kind', False)]
+        out.append((label + ':count', O.eq(a.count, b.count)))
+        out.append((label + ':item-kind', a.tuple_kind == b.tuple_kind and len(a.views) == len(b.views)))
+        for o, (x, y) in enumerate(zip(a.views, b.views)):
+            out.extend(same(x, y, '%s:view%d' % (label, o)))
+        return out
     if isinstance(b, Tn):
         if not isinstance(a, Tn):
             return [(label + ':is-tensor', False)]
